@@ -159,25 +159,55 @@ def render(table, split=None):
     return "\n".join(lines) + "\n", hw_line
 
 
-def render_split(table, where, pkg):
-    """where[i] in ('ma','mz'): Griffe sees a package with two modules importing from each other."""
+def split_parts(split):
+    """split is None, a list of module names per class (plain from-imports), or {"where": [...], "imp": style}."""
+    if split is None:
+        return None, "from"
+    if isinstance(split, dict):
+        return split["where"], split.get("imp", "from")
+    return split, "from"
+
+
+def render_split(table, where, pkg, imp="from"):
+    """where[i] in ('ma','mz'): Griffe sees a package with two modules whose classes inherit across the module boundary.
+    imp: how a base class defined in the other module reaches the module that uses it:
+      from      explicit `from pkg.other import K0` / `from .other import K0`
+      wild      `from pkg.other import *` (same-package wildcard import)
+      wild_all  the same, and the defining module lists its classes in __all__
+      reexport  `from pkg import K0`, the package __init__ re-exporting with wildcard imports of both modules
+      reexport_from  the same with explicit from-imports in __init__
+    Returns ({module: source} including "__init__", {class index: line of the hand-written def __init__})."""
     out = {}
     hw_line = {}
+    init_lines = []
     for m in ("ma", "mz"):
         lines = header(table)
         need = sorted({b for i, c in enumerate(table) if where[i] == m for b in c["bases"] if where[b] != m})
         other = "mz" if m == "ma" else "ma"
-        for b in need:
-            lines.append(f"from {pkg}.{other} import K{b}" if b % 2 else f"from .{other} import K{b}")
-        for i, c in enumerate(table):
-            if where[i] != m:
-                continue
+        mine = [i for i in range(len(table)) if where[i] == m]
+        if imp in ("wild", "wild_all"):
+            if need:
+                lines.append(f"from {pkg}.{other} import *" if len(need) % 2 else f"from .{other} import *")
+        elif imp in ("reexport", "reexport_from"):
+            for b in need:
+                lines.append(f"from {pkg} import K{b}")
+        else:
+            for b in need:
+                lines.append(f"from {pkg}.{other} import K{b}" if b % 2 else f"from .{other} import K{b}")
+        if imp == "wild_all":
+            lines.append("__all__ = [" + ", ".join(f'"K{i}"' for i in mine) + "]")
+        if imp == "reexport" and mine:
+            init_lines.append(f"from {pkg}.{m} import *")
+        if imp == "reexport_from" and mine:
+            init_lines.append(f"from {pkg}.{m} import " + ", ".join(f"K{i}" for i in mine))
+        for i in mine:
             lines.append("")
-            cl, off = render_class(i, c)
+            cl, off = render_class(i, table[i])
             if off is not None:
                 hw_line[i] = len(lines) + off + 1
             lines.extend(cl)
         out[m] = "\n".join(lines) + "\n"
+    out["__init__"] = "\n".join(init_lines) + ("\n" if init_lines else "")
     return out, hw_line
 
 
@@ -273,28 +303,35 @@ def cpython_view(src, n):
 _counter = itertools.count()
 
 
-def griffe_view(ctx, table, hw_line_single, split_where):
-    """Write the source under ctx.scratch, load it with griffe.load (default extensions => built-in dataclasses extension)."""
+def griffe_view(ctx, table, hw_line_single, split, load=None):
+    """Write the source under ctx.scratch and load it with griffe.load.  Default: a fresh module name and default extensions
+    (=> built-in dataclasses extension, as the loader adds it).  load = {"name", "dir", "extensions"} selects a fixed package
+    name in its own directory and a shared Extensions container (history stream: several versions through ONE container)."""
     import griffe
     k = next(_counter)
-    base = ctx.scratch / "src"
+    where, imp = split_parts(split)
+    if load is None:
+        base = ctx.scratch / "src"
+        name = f"c18m{k}" if where is None else f"c18p{k}"
+        kwargs = {}
+    else:
+        base = ctx.scratch / load["dir"]
+        name = load["name"]
+        kwargs = {"extensions": load["extensions"]}
     base.mkdir(parents=True, exist_ok=True)
-    if split_where is None:
-        name = f"c18m{k}"
+    if where is None:
         src, hw_line = render(table)
         (base / f"{name}.py").write_text(src)
         locate = lambda i: f"K{i}"  # noqa: E731
     else:
-        name = f"c18p{k}"
         d = base / name
         d.mkdir()
-        (d / "__init__.py").write_text("")
-        mods, hw_line = render_split(table, split_where, name)
-        for m, s in mods.items():
-            (d / f"{m}.py").write_text(s)
-        locate = lambda i: f"{split_where[i]}.K{i}"  # noqa: E731
+        mods, hw_line = render_split(table, where, name, imp)
+        for m, text in mods.items():
+            (d / f"{m}.py").write_text(text)
+        locate = lambda i: f"{where[i]}.K{i}"  # noqa: E731
     with Watchdog():
-        pkg = griffe.load(name, search_paths=[str(base)])
+        pkg = griffe.load(name, search_paths=[str(base)], **kwargs)
     out = []
     for i in range(len(table)):
         cls = pkg[locate(i)]
